@@ -273,6 +273,15 @@ func (p *Prog) errClasses(v ssa.Value, depth int, seen map[ssa.Value]bool) errCl
 		} else {
 			out["Foreign"] = true
 		}
+	case *ssa.Parameter:
+		// resolved by the caller: see the *ssa.Call case
+		for i, pa := range x.Parent().Params {
+			if pa == x {
+				out[fmt.Sprintf("Param#%d", i)] = true
+				return out
+			}
+		}
+		out["Foreign"] = true
 	case *ssa.MakeInterface:
 		return p.errClasses(x.X, depth, seen)
 	case *ssa.ChangeInterface:
@@ -287,6 +296,18 @@ func (p *Prog) errClasses(v ssa.Value, depth int, seen map[ssa.Value]bool) errCl
 			if f := x.Common().StaticCallee(); f != nil && f.Pkg == p.SPkg && f.Blocks != nil {
 				// summarise the callee's error results
 				for _, c := range p.returnErrClasses(f, depth-1) {
+					var i int
+					if n, _ := fmt.Sscanf(c, "Param#%d", &i); n == 1 {
+						// the callee hands back one of its arguments
+						if i < len(x.Common().Args) {
+							for c2 := range p.errClasses(x.Common().Args[i], depth-1, seen) {
+								out[c2] = true
+							}
+						} else {
+							out["Foreign"] = true
+						}
+						continue
+					}
 					out[c] = true
 				}
 			} else {
